@@ -285,8 +285,9 @@ def _o_redraw(spec, n, seed):
     for i, d in enumerate(spec["dims"]):
         bad = ~np.isclose(a[:, i], e[:, i], rtol=1e-9, atol=0)
         if bad.any():
-            if any(dd["fam"] in ("GG", "VM") for dd in spec["dims"][:i + 1]):
-                return "unjudged"          # rejection samplers: the stream may legitimately fork on the last bit
+            if d["fam"] in ("GG", "VM"):
+                return "unjudged"          # rejection sampler in this column: the stream may legitimately fork on the last bit
+                # (all earlier columns agree, so an earlier rejection sampler did not fork)
             r = int(np.argmax(bad))
             cls = "constant-dependence-function" if d["cond"] is not None and all(
                 p[0] != "dep" or p[1] == "const" for p in d["params"].values()) else "other"
@@ -320,6 +321,21 @@ def edge_specs():
                          {"fam": "LN", "cond": 0, "params": {"mu": ["dep", "sat", [0.2, 1.0]], "sigma": ["fix", 0.3]}},
                          {"fam": "LN", "cond": 1, "params": {"mu": ["dep", "lnsq", [1.5, 2.0]], "sigma": ["dep", "asym", [0.2, 0.4, 0.5]]}}]}
     return [twin_w, twin_ln, w_w, ln_ln_ln]
+
+
+def negative_specs(rng):
+    """models whose CONDITIONING variables take negative values (normal, von Mises direction, Weibull with a negative
+    location) with dependence functions that are defined on the whole real line (a + b x for a location, a + b cos(x - c))"""
+    u = rng.uniform
+    nrm = {"fam": "N", "cond": None, "params": {"mu": ["val", u(-0.5, 0.5)], "sigma": ["val", u(0.8, 1.5)]}}
+    vm = {"fam": "VM", "cond": None, "params": {"kappa": ["val", u(0.5, 2.0)], "mu": ["val", u(-0.5, 0.5)]}}
+    wneg = {"fam": "W", "cond": None, "params": {"alpha": ["val", u(1.5, 2.5)], "beta": ["val", u(1.5, 2.5)], "gamma": ["val", -u(1.0, 2.0)]}}
+    n_on = lambda c: {"fam": "N", "cond": c, "params": {"mu": ["dep", "lin", [1.0, u(1.5, 2.5)]], "sigma": ["fix", u(0.3, 0.6)]}}
+    w_on = lambda c: {"fam": "W", "cond": c, "params": {"alpha": ["dep", "cos", [3.0, u(1.2, 1.8), 1.0]], "beta": ["fix", u(1.5, 3.0)], "gamma": ["fix", 0.0]}}
+    ln_on = lambda c: {"fam": "LN", "cond": c, "params": {"mu": ["dep", "lin", [0.5, u(0.4, 0.8)]], "sigma": ["dep", "cos", [0.5, 0.2, u(0, 2.0)]]}}
+    ew_on = lambda c: {"fam": "EW", "cond": c, "params": {"alpha": ["dep", "cos", [2.0, 1.0, u(0, 3.0)]], "beta": ["fix", u(1.0, 2.0)], "delta": ["dep", "cos", [2.0, 0.8, 0.5]]}}
+    return [{"dims": [dict(nrm), n_on(0)]}, {"dims": [dict(vm), w_on(0)]}, {"dims": [dict(wneg), ln_on(0)]},
+            {"dims": [dict(nrm), n_on(0), w_on(1)]}, {"dims": [dict(vm), ew_on(0), ln_on(0)]}, {"dims": [dict(wneg), n_on(0), ew_on(1), ln_on(0)]}]
 
 
 def _o_twin(spec, n, seed, seed_type="int"):
@@ -367,6 +383,26 @@ def _o_statistics(spec, n, seed, stats):
                     "KS distance %.4f, DKW band %.4f at 1e-12" % (n, seed, i, spec["dims"][i]["cond"], d, eps))
         if d > eps:
             stats["outside_band_unjudged"] = stats.get("outside_band_unjudged", 0) + 1
+    # the conditional clause on parts of the sample: rows with a negative / non-negative conditioning value, and the tenths of
+    # the rows by row index (u_i is independent of the conditioning value and of the row index)
+    for i in range(nd):
+        c = spec["dims"][i]["cond"]
+        if c is None:
+            continue
+        parts = [("conditioning value < 0", a[:, c] < 0), ("conditioning value >= 0", a[:, c] >= 0)]
+        if n >= 10000:
+            idx = np.arange(n)
+            parts += [("rows %d..%d" % (k * n // 10, (k + 1) * n // 10 - 1), (idx >= k * n // 10) & (idx < (k + 1) * n // 10)) for k in range(10)]
+        for label, mask in parts:
+            m = int(mask.sum())
+            if m < 1000:
+                continue
+            d, e = ks_uniform(u[mask, i]), dkw(m, nd * 12)
+            stats["ks_over_eps_max_parts"] = max(stats.get("ks_over_eps_max_parts", 0.0), d / e)
+            if d > FAR * e:
+                return ({"clause": "distribution", "kind": "conditional", "part": label.split(" ")[0], "input_class": input_class(spec, i)},
+                        "draw_sample(%d, random_state=%d): on the %d rows with %s, column %d given column %d does not follow its conditional "
+                        "distribution: KS distance %.4f, DKW band %.4f at 1e-12" % (n, seed, m, label, i, c, d, e))
     grid = np.linspace(0.15, 0.85, 6)
     pairs = [(i, j) for i in range(nd) for j in range(i + 1, nd)]
     eps2 = math.sqrt(math.log(2 * len(pairs) * len(grid) ** 2 / DELTA) / (2 * n))
@@ -630,6 +666,7 @@ def run(ctx):
             if d["cond"] != c:
                 d.update(M.rand_dim(rng, d["fam"], c))
         specs.append(sp)
+    specs += negative_specs(rng)
     # a model whose conditional variable has ONLY constant dependence functions (a dependence function may ignore x)
     cspec = {"dims": [{"fam": "W", "cond": None, "params": {"alpha": ["val", 1.5], "beta": ["val", 2.0], "gamma": ["val", 0.0]}},
                       {"fam": "LN", "cond": 0, "params": {"mu": ["dep", "const", [1.0]], "sigma": ["dep", "const", [0.5]]}}]}
@@ -813,6 +850,20 @@ def run(ctx):
             g = rng.uniform(0.3, 4.0)
             neval += 1
             report(o_univariate(dc, nbig, seed, stats, given=g), {"oracle": "univariate", "dimspec": dc, "n": nbig, "seed": seed, "given": g})
+    # conditioning variables with negative values: the conditional clause on the rows with a negative conditioning value
+    for nsp in negative_specs(rng):
+        seed = rng.randrange(2 ** 31)
+        neval += 2
+        n1, o = shrink_n(lambda kk: o_redraw(nsp, kk, seed), 1000)
+        report(o, {"oracle": "redraw", "spec": nsp, "n": n1, "seed": seed})
+        report(o_statistics(nsp, nbig, seed, stats), {"oracle": "statistics", "spec": nsp, "n": nbig, "seed": seed})
+    # sample sizes that are not a multiple of any plausible block size: row-wise alignment of the conditional draws in
+    # every tenth of the rows, and an exact re-draw with the parameters of the same row
+    for esp, n in ((edge_specs()[2], 333_333), (edge_specs()[3], 600_000 if ctx.quick() else 777_777)):
+        seed = rng.randrange(2 ** 31)
+        neval += 2
+        if not report(o_redraw(esp, n, seed), {"oracle": "redraw", "spec": esp, "n": n, "seed": seed}):
+            report(o_statistics(esp, n, seed, stats), {"oracle": "statistics", "spec": esp, "n": n, "seed": seed})
     # sample sizes beyond a million that are not round numbers (marginal_icdf at tail probabilities asks for such samples)
     for esp, n in ((edge_specs()[2], 1_000_001), (edge_specs()[3], 2_500_000 if ctx.quick() else 3_333_333)):
         seed = rng.randrange(2 ** 31)
